@@ -17,7 +17,7 @@ through completely.  User code that gets hold of objects whose constructor is st
 postponed (callback, scope provider, model processor of an imported file, constructor
 of a child or of a referring object) stores attributes on them (names unknown to the
 grammar, attributes of other rules, `_tx_`-like names, a grammar attribute of the
-object again) and deletes them again (60% of the main load trees, 1..4 stores each).  The same tree is run by the Lean machine (Drivers/LoadTree.lean).
+object again, `parent` on a root object) and deletes them again (60% of the main load trees, 1..4 stores each).  The same tree is run by the Lean machine (Drivers/LoadTree.lean).
 """
 from harness import loadtree as lt
 from harness.core import Check
@@ -25,7 +25,7 @@ from harness.core import Check
 THEOREMS = [
     "LoadTree.C14_restored", "LoadTree.C14_restored_env", "LoadTree.C14_restored_clean", "LoadTree.C14_calls",
     "LoadTree.C14_init_once", "LoadTree.C14_init_at_most_once", "LoadTree.C14_init_order", "LoadTree.C14_kwargs",
-    "LoadTree.C14_kwargs_ops", "LoadTree.C14_kwargs_root_parent_false", "LoadTree.C14_unbalanced_false",
+    "LoadTree.C14_kwargs_ops", "LoadTree.C14_kwargs_pinned_false", "LoadTree.C14_unbalanced_false",
 ]
 CLEAN = [0, False, False, 0]
 
@@ -83,9 +83,11 @@ class Prop(Check):
     THOROUGH_CASES = 7000
     RULE = ("load trees of 1..5 files x user classes (8 variants, none, subsets of 5 rules) x complete fault table "
             "(14 entries, cycled) x nested loads from user code (40%) x immutable root (6%) x global repository (10%) x "
+            "metamodel without object processors (20%) x "
             "stores / deletions of user code on objects under construction (60% of the main trees, 40% of the nested: "
             "1..4 stores from callback / scope provider / imported model processor / another constructor; names: "
-            "non-grammar, other rule's attribute, own grammar attribute; 20% deleted again); "
+            "non-grammar, other rule's attribute, own grammar attribute, parent on a root (from a child's constructor); "
+            "20% deleted again); "
             "non-trivial = a user class was instrumented and (a constructor ran or the load failed after instrumenting)")
     MODELLED = ("hand-modelled (TextxVerif/LoadTree.lean): model.py get_model_from_str, _replace/_restore_user_attr_methods, "
                 "_discard_user_obj_attrs, process_node (user objects), parse_tree_to_objgraph (callback, imports, resolution, "
@@ -95,8 +97,8 @@ class Prop(Check):
                 "constructor ran, then the filter); "
                 "not exhibited: attribute values (checked by the direct oracle only), repositories (C17/C18), CPython's GC")
     ASSUMPTIONS = [
-        "user code does not store `parent` on a root object and does not delete grammar attributes / `parent` of an object "
-        "under construction (C14_kwargs_ops: Op.harmless; C14_kwargs_root_parent_false shows the first is needed)",
+        "user code does not delete grammar attributes / the `parent` of a contained object while the object is under "
+        "construction (C14_kwargs_ops: Op.harmless); it may store anything, also `parent` on a root object",
         "nested loads started by user code leave the classes as they found them (proved for loads of the table: runF_frame)",
         "object ids are fresh (allocator counter); a key of _tx_obj_attrs belongs to a live object",
         "scope-provider calls of later resolution rounds are not modelled (the harness logs the first call per reference)",
